@@ -173,7 +173,7 @@ func main() {
 func runExec(r *hlib.Run, tc *toolchain) {
 	nPkgs, perPkg, workers := 5, 14, 5
 	if r.Thorough {
-		nPkgs, perPkg, workers = 250, 12, 12
+		nPkgs, perPkg, workers = 150, 12, 12
 	}
 	t0 := time.Now()
 	// phase 1: generate (sequential: deterministic for the seed)
